@@ -296,7 +296,8 @@ func init() {
 	reg("("+sdkT+"Dec).MulInt64", func(e *Exec, a []Value) Value {
 		return bv(e.ovf(e.tt.IntBin("*", e.big(a[0]), e.sbv2int(a[1].(*Term))), "Dec"))
 	})
-	reg("("+sdkT+"Dec).TruncateInt", func(e *Exec, a []Value) Value { return bv(e.truncDiv(e.big(a[0]), prec)) })
+	// the integer result goes through NewIntFromBigInt, which panics beyond 255 bits
+	reg("("+sdkT+"Dec).TruncateInt", func(e *Exec, a []Value) Value { return bv(e.ovf(e.truncDiv(e.big(a[0]), prec), "Int")) })
 	reg("("+sdkT+"Dec).TruncateInt64", func(e *Exec, a []Value) Value {
 		t := e.truncDiv(e.big(a[0]), prec)
 		lo := e.tt.Int(new(big.Int).Neg(new(big.Int).Lsh(big.NewInt(1), 63)))
@@ -318,7 +319,7 @@ func init() {
 	reg("("+sdkT+"Dec).TruncateDec", func(e *Exec, a []Value) Value {
 		return bv(e.tt.IntBin("*", e.truncDiv(e.big(a[0]), prec), e.tt.Int(prec)))
 	})
-	reg("("+sdkT+"Dec).RoundInt", func(e *Exec, a []Value) Value { return bv(e.chop(e.big(a[0]))) })
+	reg("("+sdkT+"Dec).RoundInt", func(e *Exec, a []Value) Value { return bv(e.ovf(e.chop(e.big(a[0])), "Int")) })
 	reg("("+sdkT+"Dec).IsInteger", func(e *Exec, a []Value) Value {
 		return e.tt.Eq(e.tt.IntBin("mod", e.big(a[0]), e.tt.Int(prec)), e.tt.Int64(0))
 	})
